@@ -225,7 +225,6 @@ proof fn lemma_slab_values<T>(s: Slab<T>, v: Seq<T>, k: usize)
 {}
 //@ endregion
 //@ region executor_ctor_specs props=C10
-pub assume_specification<T> [std::cell::RefCell::<T>::new] (t: T) -> (r: RefCell<T>);
 pub assume_specification<T> [Mutex::<T>::new] (t: T) -> (r: Mutex<T>)
     ensures mutex_content(&r) == t;
 /// what a fresh Mutex holds (ghost; ASSUMED)
